@@ -105,7 +105,12 @@ func engineOracles(c *Ctx, ec *eCase, recs []reqRec) {
 		where := fmt.Sprintf("request %d (input %q, mode %s)", i, trunc(string(in), 40), ec.mode)
 		// ---- C01: delivered output fits
 		if r.f == "ok" && ec.out > 0 && len(r.out) > ec.out {
-			c.Fail("C01", "flush-oversize", fmt.Sprintf("%s: %d bytes delivered, output size %d: %q", where, len(r.out), ec.out, trunc(string(r.out), 80)))
+			cls := "flush-oversize"
+			if !r.cont && r.x == "ok" && len(r.code) == 0 && !flagBit(r.flags, 6) {
+				// graceful end: Flush appends the exit value (last loaded content) after the page
+				cls = "flush-oversize-exit-suffix"
+			}
+			c.Fail("C01", cls, fmt.Sprintf("%s: %d bytes delivered, output size %d: %q", where, len(r.out), ec.out, trunc(string(r.out), 80)))
 		}
 		// ---- C08: no panic, session consistent (well-formed applications only)
 		if ec.wf {
@@ -157,7 +162,7 @@ func engineOracles(c *Ctx, ec *eCase, recs []reqRec) {
 			break
 		}
 		// ---- C17: refused input has no effect
-		if refusedInput(in) && !hasFirst {
+		if refusedInput(in) && (!hasFirst || len(in) <= 255) {
 			if r.x != "err" {
 				c.Fail("C17", "refused-not-rejected", fmt.Sprintf("%s: refused input did not produce an error (x=%s)", where, r.x))
 			}
@@ -227,6 +232,15 @@ func engineOracles(c *Ctx, ec *eCase, recs []reqRec) {
 		// ---- C03 / C04: routing by the first matching INCMP (simple targets only)
 		if prev != nil && prev.x == "ok" && r.x == "ok" && !refusedInput(in) && !hasFirst && !ec.roe && prev.cont && len(prev.code) > 0 {
 			t, matched, ok, ended, nmatch := firstMatch(prev.code, in)
+			if ok && matched && nmatch > 1 && !flagBit(prev.flags, 6) {
+				// several INCMP lines match: only the first may move
+				if code, have := ec.nodes[t]; have && simpleNode(code) && r.cont {
+					exp := append(append([]string{}, prev.path...), t)
+					if strings.Join(exp, "/") != strings.Join(r.path, "/") {
+						c.Fail("C03", "duplicate-selector-second-move", fmt.Sprintf("%s: %d INCMP lines match; the first targets %q from %v, session is at %v", where, nmatch, t, prev.path, r.path))
+					}
+				}
+			}
 			if ok && (nmatch <= 1 || !matched) {
 				if !matched && !ended {
 					// code continues after the INCMP block: fallthrough executes it, no catch expected
